@@ -358,7 +358,7 @@ impl<'a> Builder<'a> {
                             let k = (s.p[2] as usize) % sv.len();
                             sv = sv[k..].to_vec();
                         }
-                        2 => {
+                        2 if std::env::var("VH_NO_LARGER_PARTNER").is_err() => {
                             // a LARGER partner: a is the operand that gets broadcast
                             let grow = 2 + (s.p[2] as u64 >> 4) % 3;
                             if let Some(k) = sv.iter().position(|d| *d == 1) {
@@ -369,7 +369,7 @@ impl<'a> Builder<'a> {
                         }
                         _ => {}
                     }
-                } else if s.p[1] % 4 == 2 {
+                } else if s.p[1] % 4 == 2 && std::env::var("VH_NO_LARGER_PARTNER").is_err() {
                     sv = vec![2 + (s.p[2] as u64 >> 4) % 3];
                 }
                 let want = leaf_type(st, &sv);
